@@ -1190,6 +1190,8 @@ class Authenticated(BaseClientHandler):
 
         try:
             mbox = await self.server.get_mailbox(cmd.mailbox_name)
+            if r"\Noselect" in mbox.attributes:
+                raise NoSuchMailbox(f"'{cmd.mailbox_name}' has been deleted")
             async with cmd.ready_and_okay(mbox):
                 uid = await mbox.append(
                     cmd.message, cmd.flag_list, cmd.date_time
@@ -1622,6 +1624,10 @@ class Authenticated(BaseClientHandler):
         async with cmd.ready_and_okay(self.mbox):
             try:
                 dest_mbox = await self.server.get_mailbox(cmd.mailbox_name)
+                if r"\Noselect" in dest_mbox.attributes:
+                    raise NoSuchMailbox(
+                        f"'{cmd.mailbox_name}' has been deleted"
+                    )
                 src_uids, dst_uids = await self.mbox.copy(
                     cmd.msg_set,
                     dest_mbox,
@@ -1691,6 +1697,10 @@ class Authenticated(BaseClientHandler):
         async with cmd.ready_and_okay(self.mbox):
             try:
                 dest_mbox = await self.server.get_mailbox(cmd.mailbox_name)
+                if r"\Noselect" in dest_mbox.attributes:
+                    raise NoSuchMailbox(
+                        f"'{cmd.mailbox_name}' has been deleted"
+                    )
                 src_uids, dst_uids = await self.mbox.copy(
                     cmd.msg_set,
                     dest_mbox,
